@@ -625,7 +625,9 @@ func componentCase(c *Case) (*WF, string) {
 			// concatenated per group
 			groupBy = "grp"
 			tg := addNode(w, Node{Name: "tagg", Kind: KMapToTags, TagKey: "grp", TagGroups: 1 + t.Choose(simrt.StGen, 3, 0),
-				Ins: []InSpec{{Name: "in", From: from}}, Outs: []OutSpec{{Name: "out"}}})
+				// (sometimes tagged and untagged inputs arrive mixed)
+				TagSkip: []int{0, 2, 3}[t.Choose(simrt.StGen, 3, 0)],
+				Ins:     []InSpec{{Name: "in", From: from}}, Outs: []OutSpec{{Name: "out"}}})
 			from = []Edge{{tg, "out"}}
 		}
 		cc := addNode(w, Node{Name: "cat", Kind: KConcat, OutPath: "concat/all.txt", Rec: true, GroupBy: groupBy,
@@ -643,7 +645,8 @@ func componentCase(c *Case) (*WF, string) {
 		// (incl. wildcard-free patterns naming a file that may or may not exist)
 		pats := []string{"data/*.txt", "data/a*", "*/a1.txt", "data/?1.txt", "*.txt", "data/[ab]?.*", "nomatch/*", "data/a2.txt", "other/a1.txt", "data/zz.txt"}
 		g := Node{Name: "glob", Kind: KGlobber}
-		np := 1 + t.Choose(simrt.StGen, 2, 0)
+		np := 1 + t.Choose(simrt.StGen, 3, 0)
+		g.Rec = true
 		seen := map[string]bool{}
 		for i := 0; i < np; i++ {
 			p := pats[t.Choose(simrt.StGen, len(pats), 0)]
@@ -837,12 +840,18 @@ func init() {
 					// grouped: one output per group value, each = its members in arrival
 					// order; the plain output stays empty
 					groups := map[string]string{}
+					plain := ""
 					for _, p := range arrival {
 						fid, _ := idOf(root, Abs(p))
-						groups[tagValueFor(tg, p)] += fid.data + "\n"
+						if g := tagValueFor(tg, p); g != "" {
+							groups[g] += fid.data + "\n"
+						} else {
+							plain += fid.data + "\n"
+							c.Probe("concat-untagged-among-tagged")
+						}
 					}
-					if id.data != "" {
-						return Viol("concat-content", kind, "GroupByTag: every input carries the tag, yet the plain output holds %q", clip([]byte(id.data)))
+					if id.data != plain {
+						return Viol("concat-content", kind, "GroupByTag: the plain output holds %q; the inputs without the tag, in arrival order, give %q", clip([]byte(id.data)), clip([]byte(plain)))
 					}
 					for _, g := range sortedKeys(groups) {
 						gp := "/work/concat/all.txt.grp_" + g
@@ -890,6 +899,16 @@ func init() {
 					return Viol("concat-inputs", kind, "Concatenator received %v, upstream emitted %v", arrival, want)
 				}
 				return OK()
+			case "globber":
+				// matches are emitted pattern by pattern, each pattern's matches in the
+				// (sorted) order filepath.Glob yields them
+				got := inc.RT.Recorded[recKey("glob", "out", "use", "a")]
+				if want := w.NodeByName("glob").Files; strings.Join(got, " ") != strings.Join(want, " ") {
+					return Viol("globber-order", kind, "FileGlobber with patterns %v emitted %v; pattern by pattern the matches are %v", w.NodeByName("glob").Globs, got, want)
+				}
+				if len(w.NodeByName("glob").Globs) > 1 {
+					c.Probe("globber-several-patterns")
+				}
 			case "sources":
 				got := inc.RT.Recorded[recKey("src0", "out", "use", "a")]
 				if strings.Join(got, " ") != strings.Join(w.NodeByName("src0").Files, " ") {
